@@ -1,4 +1,4 @@
-"""C17 — Sketchy memory reallocation respects the memory budget.
+r"""C17 — Sketchy memory reallocation respects the memory budget.
 
 The REAL create_redist_dict is executed by the float32 forking executor (E2) on an
 in-memory `states` tree; scores are symbolic float32 values (the arithmetic the real
@@ -30,8 +30,13 @@ def tasks(tier):
   out = [dict(n=n, dim=d, rank=r, **({'stretch': True} if n >= 3 else {})) for n, d, r in grid]
   # several axes per layer / several groups of different dimension (exercises grouping and the write-back by layer and axis)
   out.append(dict(layers=[[3, 2]], rank=2))
+  # sub-cases of three / four axes per group that stay cheap: tied scores (one symbolic value shared by several axes) and
+  # all-zero sketches (frozen or never-updated layers) next to free scores
+  out += [dict(n=3, dim=3, rank=2, pattern=[0, 'z', 'z']), dict(n=3, dim=4, rank=3, pattern=[0, 'z', 'z']), dict(n=4, dim=3, rank=2, pattern=[0, 'z', 'z', 'z'])]
   if tier == 'thorough':
-    out += [dict(layers=[[4, 3], [4, 2]], rank=2), dict(layers=[[3, 4], [4, 3]], rank=2, stretch=True)]
+    out += [dict(n=3, dim=3, rank=2, pattern=[0, 1, 1], stretch=True), dict(n=3, dim=4, rank=2, pattern=[0, 0, 1], stretch=True),
+            dict(n=4, dim=3, rank=2, pattern=[0, 1, 'z', 'z']), dict(n=4, dim=4, rank=3, pattern=[0, 0, 'z', 'z']), dict(n=5, dim=3, rank=2, pattern=[0, 1, 'z', 'z', 'z']),
+            dict(n=5, dim=4, rank=2, pattern=[0, 'z', 'z', 'z', 'z'])]
   return out
 
 
@@ -67,13 +72,17 @@ def axes_of(layers):
   return [(i, a, d) for i, dims in enumerate(layers) for a, d in enumerate(dims)]
 
 
-def enumerate_paths(layers, rank, maxpaths=400):
+def enumerate_paths(layers, rank, maxpaths=400, pattern=None):
   mod = load_module()
   axes = axes_of(layers)
   n = len(axes)
   names = [f'L{i}/axes/{a}' for i, a, _ in axes]
-  sc = [z3.FP(f's{k}', F) for k in range(n)]
-  mod.score_fn = lambda states, rule, layer_names, running_average=False: {nm: SymF(s) for nm, s in zip(names, sc)}
+  pattern = list(range(n)) if pattern is None else pattern
+  nv = len({q for q in pattern if q != 'z'})
+  sc = [z3.FP(f's{k}', F) for k in range(nv)]                      # the free scores
+  axis_sc = [z3.FPVal(0.0, F) if q == 'z' else sc[q] for q in pattern]     # score of each axis (shared variable = tie, 'z' = zero)
+  mod.score_fn = lambda states, rule, layer_names, running_average=False: {nm: SymF(s) for nm, s in zip(names, axis_sc)}
+  n = nv
   states = make_states(layers)
 
   def run():
@@ -173,7 +182,10 @@ def work(t):
   layers, rank = layers_of(t), t['rank']
   tag = (f"n={t['n']}|dim={t['dim']}|rank={rank}" if 'n' in t else f"axis dims per layer={layers}|rank={rank}")
   known_open = {e['key']: e for e in load_known(PID) if e.get('status') == 'open'}
-  sc, base, paths, ocalls = enumerate_paths(layers, rank)
+  pattern = t.get('pattern')
+  if pattern:
+    tag += f'|scores tied/zero pattern={pattern}'
+  sc, base, paths, ocalls = enumerate_paths(layers, rank, pattern=pattern)
   names = [str(s) for s in sc]
   timeout = t.get('timeout', 600)
   res, viol = [], []
@@ -195,6 +207,8 @@ def work(t):
       n_unsat += 1
     elif r['status'] == 'sat':
       scores = [float(np.float32(r['model'].get(nm, 0.0))) for nm in names]
+      if pattern:
+        scores = [0.0 if q == 'z' else scores[q] for q in pattern]
       what = real_run(scores, layers, rank)
       if what:
         key = 'C17:over-allocation' if 'sum to' in what else ('C17:exception:' + what.split('raises ')[1].split(':')[0] if 'raises' in what else 'C17:rank-range')
@@ -248,10 +262,10 @@ def run(rep):
     t['timeout'] = 600 if rep.tier == 'quick' else 1800
     if t.get('stretch'):
       t['task_timeout'] = 2400
-  rep.bounds = dict(grid=[(t['n'], t['dim'], t['rank']) if 'n' in t else dict(axis_dims_per_layer=t['layers'], rank=t['rank']) for t in ts], scores='every float32 that is 0 or in [2^-40, 2^40], per axis',
+  rep.bounds = dict(grid=[((t['n'], t['dim'], t['rank']) if 'pattern' not in t else dict(n=t['n'], dim=t['dim'], rank=t['rank'], tied_or_zero_pattern=t['pattern'])) if 'n' in t else dict(axis_dims_per_layer=t['layers'], rank=t['rank']) for t in ts], scores='every float32 that is 0 or in [2^-40, 2^40], per axis',
                     groups='one group of n equal-dimension axes; plus layers with two axes forming 2-3 groups of different dimension', paths='all paths up to 400 per grid point')
   rep.stubs = ['score_fn -> symbolic float32 scores (scoring rules are outside the budget claim)', 'checkpoint loading bypassed (states passed in memory)']
   rep.assumptions = ['python ints modelled as 32-bit vectors (values are far below 2^31 within the bounds)',
                      'jnp float32 scalar arithmetic = IEEE binary32 RNE']
-  rep.outside = ['more than 3 axes per group, more than 3 groups', 'scoring rules, running_average, checkpoint I/O']
+  rep.outside = ['more than 3 axes per group with all scores free (4-5 axes only with tied / zero score patterns), more than 3 groups', 'scoring rules, running_average, checkpoint I/O']
   run_tasks('vp.props.c17', 'work', ts, report=rep, timeout=(2400 if rep.tier == 'quick' else 4000), workers=6)
